@@ -39,6 +39,28 @@ fn check_hour(ctx: &Ctx, civ: &Civil, tm: &Terms, inst: i64, loc: &mut Local) {
   if h == 23 || h == 0 {
     loc.nontrivial += 1;
   }
+  // every fifth hour: the deprecated LunarHour getters and the LunarHour -> SixtyCycleHour route must report the same four characters
+  if (inst / 3600) % 5 == 0 {
+    loc.transitions += 1;
+    #[allow(deprecated)]
+    let r = guard(|| {
+      let lh = mk_time(civ, inst).get_lunar_hour();
+      let sh = lh.get_sixty_cycle_hour();
+      (
+        [lh.get_year_sixty_cycle().get_name(), lh.get_month_sixty_cycle().get_name(), lh.get_day_sixty_cycle().get_name(), lh.get_sixty_cycle().get_name()],
+        [sh.get_year().get_name(), sh.get_month().get_name(), sh.get_day().get_name(), sh.get_sixty_cycle().get_name()],
+      )
+    });
+    let key = format!("{} LunarHour routes", fmt_inst(civ, inst));
+    match r {
+      Ok((a, b)) => {
+        if a != want || b != want {
+          ctx.violation("route", key, format!("LunarHour::get_year/month/day_sixty_cycle + get_sixty_cycle = {:?}; LunarHour::get_sixty_cycle_hour = {:?}; model {:?}", a, b, want), vec!["hour".into(), inst.to_string()]);
+        }
+      }
+      Err(m) => ctx.violation("route", key, format!("panics: {}", m), vec!["hour".into(), inst.to_string()]),
+    }
+  }
   let r = guard(|| {
     let st = mk_time(civ, inst);
     let lh = st.get_lunar_hour();
@@ -59,9 +81,12 @@ fn check_hour(ctx: &Ctx, civ: &Civil, tm: &Terms, inst: i64, loc: &mut Local) {
   });
   let key = fmt_inst(civ, inst);
   let rp = vec!["hour".to_string(), inst.to_string()];
+  // does the start state itself disagree with the model? (then whatever is reached from it is reported under its key)
+  let mut start_bad = false;
   match r {
     Ok((lp, li, sp, si, sday, ec, ec2, secn, lname)) => {
       let b = ((h + 1) / 2) % 12;
+      start_bad = lp != want[3] || sp != want[3] || sday != want[2] || ec != want || secn != want.join(" ") || ec2 != want2;
       if lp != want[3] || sp != want[3] || li != (h + 1) / 2 || si != b || lname != format!("{}时", BRANCHES[b]) {
         ctx.violation("hour_pillar", key.clone(), format!("LunarHour pillar {} index {} name {}, SixtyCycleHour pillar {} index {}; model pillar {} (branch floor((h+1)/2) mod 12 = {}, Five Rats from the day the hour belongs to)", lp, li, lname, sp, si, want[3], b), rp.clone());
       }
@@ -75,7 +100,10 @@ fn check_hour(ctx: &Ctx, civ: &Civil, tm: &Terms, inst: i64, loc: &mut Local) {
         ctx.violation("eight_char_sect2", key, format!("LunarSect2 provider = {:?}, model (no day roll) = {:?}", ec2, want2), rp);
       }
     }
-    Err(m) => ctx.violation("eight_char", key, format!("panics: {}", m), rp),
+    Err(m) => {
+      start_bad = true;
+      ctx.violation("eight_char", key, format!("panics: {}", m), rp)
+    }
   }
   // a LunarHour whose lazy views are already filled, stepped by n double-hours, must report the characters of the new instant
   if h % 2 == 1 && inst % 86400 % 3600 < 1800 && (inst / 86400) % 4 == 0 {
@@ -95,7 +123,8 @@ fn check_hour(ctx: &Ctx, civ: &Civil, tm: &Terms, inst: i64, loc: &mut Local) {
         (ec.get_name(), nx.get_sixty_cycle_hour().get_eight_char().get_name(), nx.get_sixty_cycle().get_name())
       });
       // keyed by the instant whose characters are reported (so that the known reform-era dates are recognised)
-      let key = format!("{} reached by next({:+}) from {}", fmt_inst(civ, t), n, fmt_inst(civ, inst));
+      // (a step that starts from a state already reported as wrong is keyed by that start state instead)
+      let key = if start_bad { format!("{} stepped by next({:+}) to {}", fmt_inst(civ, inst), n, fmt_inst(civ, t)) } else { format!("{} reached by next({:+}) from {}", fmt_inst(civ, t), n, fmt_inst(civ, inst)) };
       match r {
         Ok((a, b, c)) => {
           if a != wantn.join(" ") || b != wantn.join(" ") || c != wantn[3] {
